@@ -10,6 +10,20 @@ static char *argreg16[] = {"%di", "%si", "%dx", "%cx", "%r8w", "%r9w"};
 static char *argreg32[] = {"%edi", "%esi", "%edx", "%ecx", "%r8d", "%r9d"};
 static char *argreg64[] = {"%rdi", "%rsi", "%rdx", "%rcx", "%r8", "%r9"};
 static Obj *current_fn;
+#ifdef CHIBICC_VERIF
+// H5: assembler comments for the stack-discipline check (only when tracing is on)
+static Node *verif_stmt;
+static int verif_stmt_id;
+static char *verif_retclass(Type *ty) {
+  switch (ty->kind) {
+  case TY_VOID: return "void";
+  case TY_FLOAT: case TY_DOUBLE: return "sse";
+  case TY_LDOUBLE: return "x87";
+  case TY_STRUCT: case TY_UNION: return ty->size > 16 ? "mem" : "agg";
+  default: return "int";
+  }
+}
+#endif
 
 static void gen_expr(Node *node);
 static void gen_stmt(Node *node);
@@ -909,7 +923,15 @@ static void gen_expr(Node *node) {
     if (node->lhs->kind == ND_VAR && !strcmp(node->lhs->var->name, "alloca")) {
       gen_expr(node->args);
       println("  mov %%rax, %%rdi");
+#ifdef CHIBICC_VERIF
+      if (vtrace_on())
+        println("# V:alloca");
+#endif
       builtin_alloca();
+#ifdef CHIBICC_VERIF
+      if (vtrace_on())
+        println("# V:alloca");
+#endif
       return;
     }
 
@@ -967,6 +989,10 @@ static void gen_expr(Node *node) {
     println("  mov %%rax, %%r10");
     println("  mov $%d, %%rax", fp);
     println("  call *%%r10");
+#ifdef CHIBICC_VERIF
+    if (vtrace_on())
+      println("# V:call ret=%s stack=%d", verif_retclass(node->ty), stack_args);
+#endif
     println("  add $%d, %%rsp", stack_args * 8);
 
     depth -= stack_args;
@@ -1220,6 +1246,18 @@ static void gen_expr(Node *node) {
 }
 
 static void gen_stmt(Node *node) {
+#ifdef CHIBICC_VERIF
+  if (vtrace_on() && node != verif_stmt) {
+    int id = verif_stmt_id++;
+    Node *outer = verif_stmt;
+    println("# V:stmt+ %d %d", id, depth);
+    verif_stmt = node;
+    gen_stmt(node);
+    verif_stmt = outer;
+    println("# V:stmt- %d %d", id, depth);
+    return;
+  }
+#endif
   println("  .loc %d %d", node->tok->file->file_no, node->tok->line_no);
 
   switch (node->kind) {
@@ -1533,6 +1571,10 @@ static void emit_text(Obj *prog) {
     println("  mov %%rsp, %%rbp");
     println("  sub $%d, %%rsp", fn->stack_size);
     println("  mov %%rsp, %d(%%rbp)", fn->alloca_bottom->offset);
+#ifdef CHIBICC_VERIF
+    if (vtrace_on())
+      println("# V:fn %s ret=%s", fn->name, verif_retclass(fn->ty->return_ty));
+#endif
 
     // Save arg registers if function is variadic
     if (fn->va_area) {
